@@ -533,9 +533,14 @@ fn subchecks(ctx: &Ctx) -> Vec<SubCheck> {
     eq_widths!(v, 120000; 8);
     mixed_widths!(v, 120000; (1, 2), (2, 1), (2, 4), (4, 2), (1, 4), (4, 1));
     mixed_widths!(v, 70000; (4, 8), (8, 4), (1, 8), (8, 1), (2, 8), (8, 2));
+    // widths that are not a power of two are outside the property's quantifier (1,2,4,8) but cost
+    // little; in the quick tier since the round-2 seeded change C14-D (ct shift ladder wrong only for
+    // non-power-of-two widths, hence ct division at I192) was missed
+    eq_widths!(v, 60000; 3);
+    mixed_widths!(v, 30000; (3, 2), (2, 3));
     if ctx.thorough() {
-        eq_widths!(v, 8000; 3, 16);
-        mixed_widths!(v, 5000; (3, 2), (2, 3), (16, 8), (8, 16), (16, 1), (1, 16));
+        eq_widths!(v, 8000; 6, 16);
+        mixed_widths!(v, 5000; (16, 8), (8, 16), (16, 1), (1, 16), (6, 3), (3, 6));
     }
     v
 }
